@@ -25,16 +25,20 @@ func init() {
 
 func (g *gen) jsDirectives() {
 	const rel = "soyjs/directives.go"
-	cl, ok := g.varValue(rel, "PrintDirectives").(*ast.CompositeLit)
 	type ent struct {
 		Name   string
 		JS     string
 		Cancel bool
 	}
 	var ents []ent
-	if !ok {
-		g.fail("%s: PrintDirectives is not a composite literal", rel)
-	} else {
+	// pattern route: the map literal, entries positional or keyed
+	perr := g.silent(func() {
+		cl, ok := g.varValue(rel, "PrintDirectives").(*ast.CompositeLit)
+		if !ok {
+			g.fail("%s: PrintDirectives is not a composite literal", rel)
+			return
+		}
+		seen := map[string]bool{}
 		for _, el := range cl.Elts {
 			kv, ok := el.(*ast.KeyValueExpr)
 			if !ok {
@@ -43,18 +47,104 @@ func (g *gen) jsDirectives() {
 			}
 			name, ok1 := strLit(kv.Key)
 			v, ok2 := kv.Value.(*ast.CompositeLit)
-			if !ok1 || !ok2 || len(v.Elts) != 2 {
+			if !ok1 || !ok2 || seen[name] {
 				g.fail("%s: PrintDirectives entry shape", rel)
 				continue
 			}
-			js, ok3 := strLit(v.Elts[0])
-			id, ok4 := v.Elts[1].(*ast.Ident)
-			if !ok3 || !ok4 || (id.Name != "true" && id.Name != "false") {
+			seen[name] = true
+			var fName, fCancel ast.Expr
+			okShape := true
+			for i, fe := range v.Elts {
+				if fkv, isKV := fe.(*ast.KeyValueExpr); isKV {
+					switch {
+					case isIdent(fkv.Key, "Name"):
+						fName = fkv.Value
+					case isIdent(fkv.Key, "CancelAutoescape"):
+						fCancel = fkv.Value
+					default:
+						okShape = false
+					}
+				} else if i == 0 {
+					fName = fe
+				} else if i == 1 {
+					fCancel = fe
+				} else {
+					okShape = false
+				}
+			}
+			js, cancel := "", false
+			if fName != nil {
+				var ok3 bool
+				if js, ok3 = strLit(fName); !ok3 {
+					okShape = false
+				}
+			}
+			if fCancel != nil {
+				if isIdent(fCancel, "true") || isIdent(fCancel, "false") {
+					cancel = isIdent(fCancel, "true")
+				} else {
+					okShape = false
+				}
+			}
+			if !okShape {
 				g.fail("%s: PrintDirectives[%q] fields are not (string literal, bool literal)", rel, name)
 				continue
 			}
-			ents = append(ents, ent{name, js, id.Name == "true"})
+			ents = append(ents, ent{name, js, cancel})
 		}
+	})
+	canon := func(es []ent) string {
+		m := map[string]string{}
+		for _, e := range es {
+			m[e.Name] = fmt.Sprintf("%q %v", e.JS, e.Cancel)
+		}
+		return canonMap(m)
+	}
+	pats := ""
+	if len(perr) == 0 {
+		pats = canon(ents)
+	}
+	// evaluation route: the exported map of the compiled package
+	evs, everr := "", ""
+	var evEnts []ent
+	ev, err := g.goEval("soyjs", []string{"encoding/hex"}, `	out := [][]interface{}{}
+	for name, d := range PrintDirectives {
+		out = append(out, []interface{}{hex.EncodeToString([]byte(name)), hex.EncodeToString([]byte(d.Name)), d.CancelAutoescape})
+	}
+	res["PrintDirectives"] = out`)
+	if err != nil {
+		everr = err.Error()
+	} else {
+		var raw [][]interface{}
+		if ev.get("PrintDirectives", &raw) {
+			for _, e := range raw {
+				if len(e) != 3 {
+					everr = "malformed evaluation result"
+					break
+				}
+				hn, ok1 := e[0].(string)
+				hj, ok2 := e[1].(string)
+				c, ok3 := e[2].(bool)
+				n, err1 := hexDecode(hn)
+				j, err2 := hexDecode(hj)
+				if !ok1 || !ok2 || !ok3 || err1 != nil || err2 != nil {
+					everr = "malformed evaluation result"
+					break
+				}
+				evEnts = append(evEnts, ent{n, j, c})
+			}
+			if everr == "" {
+				evs = canon(evEnts)
+			}
+		} else {
+			everr = "no result for PrintDirectives"
+		}
+	}
+	switch g.choose(rel+" PrintDirectives", pats, strings.Join(perr, "; "), evs, everr) {
+	case routeEval:
+		ents = evEnts
+	case routeNone:
+		ents = nil
 	}
 	sort.Slice(ents, func(i, j int) bool { return ents[i].Name < ents[j].Name })
 	g.p("(* soyjs/directives.go PrintDirectives: name -> (JavaScript function name, CancelAutoescape) *)\n")
@@ -293,18 +383,36 @@ func (g *gen) jsFuncs() {
 	g.js["js_funcs"] = ents
 }
 
-// fmtPieces flattens a string expression built with + from string literals,
-// the parameter (name | dir.Name | fn.Name) and ES6Identifier(of it).
-// Piece inr 0 = the name, inr 1 = ES6Identifier(name).
-func (g *gen) fmtPieces(where string, e ast.Expr, param string) ([]jsPiece, bool) {
+// fmtEnv: a small symbolic evaluator of string-valued code over ONE abstract string (the name the
+// formatter is given): a value is a list of pieces, text or the name (inr 0) or ES6Identifier(name)
+// (inr 1).  It reads `x := <expr>` / `var x = <expr>` / `return <exprs>`, `+`, string literals, the
+// parameter (name | dir.Name | fn.Name), locals, ES6Identifier(<the name>) and calls of plain functions of
+// the same file whose body is of the same kind (their parameters bound to the arguments).
+type fmtEnv struct {
+	g      *gen
+	where  string
+	param  string // source text that denotes the name: "name", "dir.Name", "fn.Name"
+	locals map[string][]jsPiece
+	depth  int
+}
+
+const fmtRel = "soyjs/formatters.go"
+
+func (en *fmtEnv) expr(e ast.Expr) ([]jsPiece, bool) {
+	e = unparen(e)
+	if en.g.src(e) == en.param {
+		if _, shadowed := en.locals[en.param]; !shadowed {
+			return []jsPiece{{IsArg: true, Arg: 0}}, true
+		}
+	}
 	switch e := e.(type) {
 	case *ast.BinaryExpr:
 		if e.Op != token.ADD {
 			break
 		}
-		l, ok1 := g.fmtPieces(where, e.X, param)
-		r, ok2 := g.fmtPieces(where, e.Y, param)
-		return append(l, r...), ok1 && ok2
+		l, ok1 := en.expr(e.X)
+		r, ok2 := en.expr(e.Y)
+		return joinPieces(l, r), ok1 && ok2
 	case *ast.BasicLit:
 		if s, ok := strLit(e); ok {
 			if s == "" {
@@ -313,24 +421,142 @@ func (g *gen) fmtPieces(where string, e ast.Expr, param string) ([]jsPiece, bool
 			return []jsPiece{{Text: s}}, true
 		}
 	case *ast.Ident:
-		if e.Name == param {
-			return []jsPiece{{IsArg: true, Arg: 0}}, true
-		}
-	case *ast.SelectorExpr:
-		if g.src(e) == param {
-			return []jsPiece{{IsArg: true, Arg: 0}}, true
+		if ps, ok := en.locals[e.Name]; ok {
+			return ps, true
 		}
 	case *ast.CallExpr:
-		if id, ok := e.Fun.(*ast.Ident); ok && id.Name == "ES6Identifier" && len(e.Args) == 1 && g.src(e.Args[0]) == param {
-			return []jsPiece{{IsArg: true, Arg: 1}}, true
+		id, ok := e.Fun.(*ast.Ident)
+		if !ok {
+			break
+		}
+		var args [][]jsPiece
+		for _, a := range e.Args {
+			ps, ok := en.expr(a)
+			if !ok {
+				return nil, false
+			}
+			args = append(args, ps)
+		}
+		if id.Name == "ES6Identifier" && len(args) == 1 {
+			if len(args[0]) == 1 && args[0][0].IsArg && args[0][0].Arg == 0 {
+				return []jsPiece{{IsArg: true, Arg: 1}}, true
+			}
+			break // ES6Identifier of anything but the name itself is not a piece
+		}
+		// a helper of the same file
+		fd := en.g.funcDecl(fmtRel, id.Name)
+		if fd == nil || fd.Body == nil || en.depth > 4 {
+			break
+		}
+		var params []string
+		for _, f := range fd.Type.Params.List {
+			if !isIdent(f.Type, "string") {
+				params = nil
+				break
+			}
+			for _, n := range f.Names {
+				params = append(params, n.Name)
+			}
+		}
+		if len(params) != len(args) || len(params) == 0 {
+			break
+		}
+		sub := &fmtEnv{g: en.g, where: en.where, param: "\x00none", locals: map[string][]jsPiece{}, depth: en.depth + 1}
+		for i, p := range params {
+			sub.locals[p] = args[i]
+		}
+		if rs, ok := sub.body(fd.Body.List, 1); ok {
+			return rs[0], true
+		}
+		return nil, false
+	}
+	en.g.fail("soyjs/formatters.go: %s: cannot translate %s", en.where, en.g.src(e))
+	return nil, false
+}
+
+// joinPieces concatenates, merging adjacent texts (so that "a" + "b" and "ab" are the same table).
+func joinPieces(l, r []jsPiece) []jsPiece {
+	out := append([]jsPiece{}, l...)
+	for _, p := range r {
+		if n := len(out); n > 0 && !out[n-1].IsArg && !p.IsArg {
+			out[n-1].Text += p.Text
+			continue
+		}
+		out = append(out, p)
+	}
+	return out
+}
+
+// body evaluates straight-line code ending in a return of `results` strings.
+func (en *fmtEnv) body(st []ast.Stmt, results int) ([][]jsPiece, bool) {
+	for i, s := range st {
+		switch s := s.(type) {
+		case *ast.ReturnStmt:
+			if len(s.Results) != results || i != len(st)-1 {
+				en.g.fail("soyjs/formatters.go: %s: return statement with %d results, expected %d", en.where, len(s.Results), results)
+				return nil, false
+			}
+			var out [][]jsPiece
+			for _, r := range s.Results {
+				ps, ok := en.expr(r)
+				if !ok {
+					return nil, false
+				}
+				out = append(out, ps)
+			}
+			return out, true
+		case *ast.AssignStmt:
+			if (s.Tok != token.DEFINE && s.Tok != token.ASSIGN) || len(s.Lhs) != len(s.Rhs) {
+				en.g.fail("soyjs/formatters.go: %s: unsupported assignment %s", en.where, en.g.src(s))
+				return nil, false
+			}
+			var vals [][]jsPiece
+			for _, r := range s.Rhs {
+				ps, ok := en.expr(r)
+				if !ok {
+					return nil, false
+				}
+				vals = append(vals, ps)
+			}
+			for j, l := range s.Lhs {
+				id, ok := l.(*ast.Ident)
+				if !ok {
+					en.g.fail("soyjs/formatters.go: %s: unsupported assignment %s", en.where, en.g.src(s))
+					return nil, false
+				}
+				en.locals[id.Name] = vals[j]
+			}
+		case *ast.DeclStmt:
+			gd, ok := s.Decl.(*ast.GenDecl)
+			if !ok || gd.Tok != token.VAR {
+				en.g.fail("soyjs/formatters.go: %s: unsupported declaration", en.where)
+				return nil, false
+			}
+			for _, sp := range gd.Specs {
+				vs := sp.(*ast.ValueSpec)
+				if len(vs.Names) != len(vs.Values) {
+					en.g.fail("soyjs/formatters.go: %s: unsupported declaration %s", en.where, en.g.src(s))
+					return nil, false
+				}
+				for j, n := range vs.Names {
+					ps, ok := en.expr(vs.Values[j])
+					if !ok {
+						return nil, false
+					}
+					en.locals[n.Name] = ps
+				}
+			}
+		default:
+			en.g.fail("soyjs/formatters.go: %s: unsupported statement %s", en.where, en.g.src(s))
+			return nil, false
 		}
 	}
-	g.fail("soyjs/formatters.go: %s: cannot translate %s", where, g.src(e))
+	en.g.fail("soyjs/formatters.go: %s does not end in a return statement", en.where)
 	return nil, false
 }
 
 func (g *gen) jsFormatters() {
-	const rel = "soyjs/formatters.go"
+	const rel = fmtRel
 	out := map[string][]jsPiece{}
 	emit := func(coqName string, ps []jsPiece) {
 		g.p("Definition %s : list (bstr + nat) := %s.\n", coqName, coqPieces(ps))
@@ -339,23 +565,22 @@ func (g *gen) jsFormatters() {
 	g.p("(* soyjs/formatters.go: strings returned by the formatters; inr 0 = the name argument, inr 1 = ES6Identifier(name) *)\n")
 	for _, f := range []struct{ recv, coq string }{{"ES5Formatter", "es5"}, {"ES6Formatter", "es6"}} {
 		for _, m := range []struct {
-			name, param string
+			name, field string
 			results     int
-		}{{"Template", "name", 2}, {"Call", "name", 2}, {"Directive", "dir.Name", 1}, {"Function", "fn.Name", 1}} {
+		}{{"Template", "", 2}, {"Call", "", 2}, {"Directive", ".Name", 1}, {"Function", ".Name", 1}} {
 			fd := g.method(rel, f.recv, m.name)
 			where := f.recv + "." + m.name
-			var rets []ast.Expr
-			if fd == nil || fd.Body == nil || len(fd.Body.List) != 1 {
-				g.fail("%s: %s is not a single return statement", rel, where)
-			} else if rs, ok := fd.Body.List[0].(*ast.ReturnStmt); !ok || len(rs.Results) != m.results {
-				g.fail("%s: %s is not a single return statement with %d results", rel, where, m.results)
+			var rets [][]jsPiece
+			if fd == nil || fd.Body == nil || fd.Type.Params == nil || len(fd.Type.Params.List) != 1 || len(fd.Type.Params.List[0].Names) != 1 {
+				g.fail("%s: %s is not a method of one parameter", rel, where)
 			} else {
-				rets = rs.Results
+				en := &fmtEnv{g: g, where: where, param: fd.Type.Params.List[0].Names[0].Name + m.field, locals: map[string][]jsPiece{}}
+				rets, _ = en.body(fd.Body.List, m.results)
 			}
 			for i := 0; i < m.results; i++ {
 				var ps []jsPiece
 				if i < len(rets) {
-					ps, _ = g.fmtPieces(where, rets[i], m.param)
+					ps = rets[i]
 				}
 				suffix := ""
 				if m.results == 2 {
@@ -365,9 +590,21 @@ func (g *gen) jsFormatters() {
 			}
 		}
 	}
-	const es6IdentSrc = `func ES6Identifier(s string) string { return strings.Replace(s, ".", "__", -1) }`
-	if fd := g.funcDecl(rel, "ES6Identifier"); fd == nil || g.src(&ast.FuncDecl{Name: fd.Name, Type: fd.Type, Body: fd.Body}) != es6IdentSrc {
-		g.fail("%s: ES6Identifier differs from the text the model (JsGen.es6_ident) was written against", rel)
+	// ES6Identifier: a library call, modelled by hand (JsGen.es6_ident: every "." becomes "__"); the source must be
+	// one of the spellings of that
+	okIdent := false
+	if fd := g.funcDecl(rel, "ES6Identifier"); fd != nil && fd.Body != nil && fd.Type.Params != nil && len(fd.Type.Params.List) == 1 && len(fd.Type.Params.List[0].Names) == 1 &&
+		isIdent(fd.Type.Params.List[0].Type, "string") && len(fd.Body.List) == 1 {
+		p := fd.Type.Params.List[0].Names[0].Name
+		if rs, ok := fd.Body.List[0].(*ast.ReturnStmt); ok && len(rs.Results) == 1 {
+			switch g.src(rs.Results[0]) {
+			case `strings.Replace(` + p + `, ".", "__", -1)`, `strings.ReplaceAll(` + p + `, ".", "__")`, `strings.Join(strings.Split(` + p + `, "."), "__")`:
+				okIdent = true
+			}
+		}
+	}
+	if !okIdent {
+		g.fail("%s: ES6Identifier is none of the spellings of `replace every \".\" by \"__\"` the model (JsGen.es6_ident) was written against (strings.Replace(s, \".\", \"__\", -1), strings.ReplaceAll, strings.Join(strings.Split(s, \".\"), \"__\"))", rel)
 	}
 	g.p("\n")
 	g.js["js_formatters"] = out
